@@ -13,6 +13,8 @@ import ast
 from dataclasses import dataclass, field
 
 from .core import AnalysisError
+from .canon import Canon
+from .inline import Inliner, inlined
 from .sm import Func, SourceModel, dotted, norm, call_kw, find_calls
 
 MODEL_CLASS = "ODE"
@@ -85,7 +87,9 @@ class SeqNormaliser:
             return vals[0]
         return None
 
-    def canon_filter(self, cond, var: str) -> str:
+    def canon_filter(self, cond, var: str, f: Func | None = None) -> str:
+        if f is not None:
+            cond = Canon(f.node).resolve(cond)
         if isinstance(cond, ast.Call) and isinstance(cond.func, ast.Name) and cond.func.id == "isinstance" and len(cond.args) == 2:
             a0 = cond.args[0]
             if isinstance(a0, ast.Name) and a0.id == var:
@@ -274,11 +278,21 @@ def remove_unused_is_post_sort_filter(sm: SourceModel) -> tuple[bool, str, ast.A
             # 3. the filter can only drop intermediates
             cond_names = {x.id for c in v.generators[0].ifs for x in ast.walk(c) if isinstance(x, ast.Name)} - {v.generators[0].target.id}
             only_interm = False
+            cn = Canon(f.node)
             for nm in cond_names:
                 d = _local_def(f, nm)
                 if d is not None and isinstance(d, (ast.SetComp, ast.ListComp, ast.GeneratorExp, ast.Call)):
                     comp = d if not isinstance(d, ast.Call) else (d.args[0] if d.args else None)
-                    if isinstance(comp, (ast.SetComp, ast.ListComp, ast.GeneratorExp)) and len(comp.generators) == 1 and norm(comp.generators[0].iter) == "self.intermediates":
+                    if isinstance(comp, (ast.SetComp, ast.ListComp, ast.GeneratorExp)) and len(comp.generators) == 1 and cn.text(comp.generators[0].iter) == "self.intermediates":
+                        only_interm = True
+                # or: a set filled by `.add(x.name)` inside loops over self.intermediates only
+                adds = [c for c in ast.walk(f.node) if isinstance(c, ast.Call) and isinstance(c.func, ast.Attribute) and c.func.attr == "add" and isinstance(c.func.value, ast.Name) and c.func.value.id == nm]
+                if adds:
+                    def _loop_of(call):
+                        for l in ast.walk(f.node):
+                            if isinstance(l, ast.For) and any(x is call for x in ast.walk(l)):
+                                yield l
+                    if all(any(cn.text(l.iter) == "self.intermediates" for l in _loop_of(c)) for c in adds):
                         only_interm = True
             if not only_interm:
                 return False, f"the post-sort filter `{norm(st)[:80]}` is not restricted to names of intermediates, so it could drop a state derivative and shift the state slots", st
@@ -380,8 +394,26 @@ class SlotAnalysis:
         out = []
         for short in ("codegen/base.py", "codegen/python.py", "codegen/c.py", "codegen/jax.py", "schemes.py", "sympytools.py", "cli/gotran2c.py", "cli/gotran2py.py"):
             if self.sm.rel(short) in self.sm.modules:
-                out.extend(self.sm.funcs_in(short))
+                out.extend(inlined(self.sm, f) for f in self.sm.funcs_in(short) if not self._is_inlined_helper(f))
         return out
+
+    def _is_inlined_helper(self, f: Func) -> bool:
+        """Private helpers that are expanded into their callers are analysed there (with the caller's arguments)."""
+        if "." not in f.qualname or not f.name.startswith("_") or f.name.startswith("__"):
+            return False
+        if f.name in ("_state_assignments", "_parameter_assignments", "_missing_variables_assignments", "_rhs_arguments", "_scheme_arguments", "_shape_info", "_doprint", "_format", "_formatter", "_comment"):
+            return False
+        inl = Inliner(self.sm)
+        if not inl.inlinable(f):
+            return False
+        # is it called through self. from another method of the package?
+        for g in self.sm.all_funcs():
+            if g is f:
+                continue
+            for c in ast.walk(g.node):
+                if isinstance(c, ast.Call) and isinstance(c.func, ast.Attribute) and c.func.attr == f.name and isinstance(c.func.value, ast.Name) and c.func.value.id == "self":
+                    return True
+        return False
 
     # family of an IndexedBase-valued name inside f
     def base_family(self, f: Func, name: str) -> str | None:
@@ -393,13 +425,21 @@ class SlotAnalysis:
                 if isinstance(v, ast.Call) and (dotted(v.func) or "").endswith("IndexedBase"):
                     sh = call_kw(v, "shape")
                     if sh is not None:
-                        return size_family(sh)
+                        return size_family(Canon(f.node).resolve(sh))
+                if isinstance(v, ast.Attribute) and v.attr in ("states", "parameters", "values") and isinstance(v.value, ast.Name):
+                    # rhs.states / func.parameters : fields of the Func tuple built by _rhs_arguments / _scheme_arguments
+                    return {"states": "STATE", "parameters": "PARAM"}.get(v.attr)
+        if name.endswith("_states") and name.startswith("_il"):
+            return "STATE"
+        if name.endswith("_parameters") and name.startswith("_il"):
+            return "PARAM"
         return None
 
     def run(self):
         for f in self.scope_funcs():
             self._enumerates(f)
             self._counters(f)
+            self._next_counters(f)
             self._template_lists(f)
             self._matrices(f)
         return self
@@ -421,8 +461,9 @@ class SlotAnalysis:
                     continue
                 ivar = tgt.elts[0].id
                 desc = self.N.norm_seq(it.args[0], f)
-                if len(it.args) > 1 or it.keywords:
-                    desc = Desc(base=desc.show() + f" start={norm(it.args[1]) if len(it.args) > 1 else norm(it.keywords[0].value)}", opaque=True)
+                start = it.args[1] if len(it.args) > 1 else (it.keywords[0].value if it.keywords else None)
+                if start is not None and not (isinstance(start, ast.Constant) and start.value == 0):
+                    desc = Desc(base=desc.show() + f" start={norm(start)}", opaque=True)
                 fam = self._family_of_index_use(f, owner, ivar)
                 if fam is None:
                     # is the index used at all as a slot?  (template index dicts / subscripts)
@@ -431,33 +472,50 @@ class SlotAnalysis:
                 self.producers.append(Producer(fam, f, "enumerate", desc, it, norm(owner)[:90]))
 
     def _family_of_index_use(self, f: Func, owner, ivar: str) -> str | None:
-        # 1. dict comprehension {x.name: i} handed to template.<fam>_index
+        # 1. a dict {x.name: i} handed to template.<fam>_index: as a comprehension in the call, through a local, or
+        #    filled by `D[x.name] = i` inside the enumerating loop
+        dicts = set()
+        for n in ast.walk(f.node):
+            if isinstance(n, ast.Assign) and len(n.targets) == 1 and isinstance(n.targets[0], ast.Name) and any(x is owner for x in ast.walk(n.value)):
+                dicts.add(n.targets[0].id)
+        for n in ast.walk(owner):
+            if isinstance(n, ast.Assign) and isinstance(n.targets[0], ast.Subscript) and isinstance(n.targets[0].value, ast.Name) and isinstance(n.value, ast.Name) and n.value.id == ivar:
+                dicts.add(n.targets[0].value.id)
         for c in ast.walk(f.node):
             if isinstance(c, ast.Call) and isinstance(c.func, ast.Attribute) and c.func.attr.endswith("_index") and (dotted(c.func.value) or "").endswith("template"):
-                if any(n is owner for a in list(c.args) + [k.value for k in c.keywords] for n in ast.walk(a)):
+                argv = list(c.args) + [k.value for k in c.keywords]
+                if any(n is owner for a in argv for n in ast.walk(a)) or any(isinstance(a, ast.Name) and a.id in dicts for a in argv):
                     return {"state": "STATE", "parameter": "PARAM", "monitor": "MONITOR", "missing": "MISSING"}.get(c.func.attr[: -len("_index")])
         # 2. subscript with the index variable
         body_nodes = [owner]
         for n in ast.walk(owner):
-            if isinstance(n, ast.Subscript) and isinstance(n.slice, ast.Name) and n.slice.id == ivar and isinstance(n.value, ast.Name):
-                fam = self.base_family(f, n.value.id)
+            if isinstance(n, ast.Subscript) and isinstance(n.slice, ast.Name) and n.slice.id == ivar:
+                fam = self.base_family_expr(f, n.value)
                 if fam:
                     return fam
         return None
 
+    def base_family_expr(self, f: Func, base) -> str | None:
+        if isinstance(base, ast.Name):
+            return self.base_family(f, base.id)
+        if isinstance(base, ast.Attribute) and base.attr in ("states", "parameters"):
+            return {"states": "STATE", "parameters": "PARAM"}[base.attr]
+        return None
+
     # -- (b) counters --------------------------------------------------------
     def _counters(self, f: Func):
+        self._cur = f
         for loop in [n for n in ast.walk(f.node) if isinstance(n, ast.For)]:
             augs = [n for n in ast.walk(loop) if isinstance(n, ast.AugAssign) and isinstance(n.target, ast.Name) and isinstance(n.op, ast.Add)]
             for aug in augs:
                 cvar = aug.target.id
-                subs = [n for n in ast.walk(loop) if isinstance(n, ast.Subscript) and isinstance(n.slice, ast.Name) and n.slice.id == cvar and isinstance(n.value, ast.Name)]
+                subs = [n for n in ast.walk(loop) if isinstance(n, ast.Subscript) and isinstance(n.slice, ast.Name) and n.slice.id == cvar and isinstance(n.value, (ast.Name, ast.Attribute))]
                 dict_stores = [n for n in ast.walk(loop) if isinstance(n, ast.Assign) and isinstance(n.value, ast.Name) and n.value.id == cvar and isinstance(n.targets[0], ast.Subscript)]
                 if not subs and not dict_stores:
                     continue
                 fam = None
                 for s in subs:
-                    fam = fam or self.base_family(f, s.value.id)
+                    fam = fam or self.base_family_expr(f, s.value)
                 if fam is None and dict_stores:
                     dname = dict_stores[0].targets[0].value.id if isinstance(dict_stores[0].targets[0].value, ast.Name) else None
                     for c in ast.walk(f.node):
@@ -476,6 +534,55 @@ class SlotAnalysis:
                     continue
                 self.producers.append(Producer(fam, f, "counter", desc, loop, f"counter {cvar}: {why}", guard_ok))
                 break  # one producer per loop
+
+    def _next_counters(self, f: Func):
+        """slots drawn with `base[next(c)]` where c = itertools.count(): store and increment are one expression"""
+        from . import te
+
+        counts = set()
+        for n in ast.walk(f.node):
+            if isinstance(n, ast.Assign) and isinstance(n.value, ast.Call) and (dotted(n.value.func) or "").split(".")[-1] == "count" and not n.value.args:
+                for t in n.targets:
+                    if isinstance(t, ast.Name):
+                        counts.add(t.id)
+        if not counts:
+            return
+        for loop in [n for n in ast.walk(f.node) if isinstance(n, ast.For) and isinstance(n.target, ast.Name)]:
+            subs = [n for n in ast.walk(loop) if isinstance(n, ast.Subscript) and isinstance(n.slice, ast.Call) and isinstance(n.slice.func, ast.Name) and n.slice.func.id == "next" and n.slice.args and isinstance(n.slice.args[0], ast.Name) and n.slice.args[0].id in counts]
+            if not subs:
+                continue
+            fam = None
+            for s_ in subs:
+                fam = fam or self.base_family_expr(f, s_.value)
+            x = loop.target.id
+            base = self.N.norm_seq(loop.iter, f)
+            paths = te.enumerate_paths(loop.body)
+            with_next, without = [], []
+            for p in paths:
+                n_next = sum(1 for st in p.effects for c in ast.walk(st) if any(c is s_.slice for s_ in subs))
+                (with_next if n_next else without).append((p, n_next))
+            cands = None
+            for p, _ in with_next:
+                sset = {a for a, pol in p.lits if pol and a.startswith("isinstance(")}
+                cands = sset if cands is None else (cands & sset)
+            guard = None
+            for c in sorted(cands or []):
+                if all((c, False) in p.lits for p, _ in without):
+                    guard = c
+                    break
+            ok = all(n == 1 for _, n in with_next)
+            if guard is None and without:
+                gtxt, ok = "<no single isinstance guard>", False
+            elif guard is None:
+                gtxt = None
+            else:
+                gtxt = self.N.canon_filter(ast.parse(guard, mode="eval").body, x, f)
+            filters = tuple(sorted(list(base.filters) + ([gtxt] if gtxt else [])))
+            desc = Desc(base=base.base, args=base.args, filters=filters, maps=base.maps, opaque=base.opaque)
+            if fam is None:
+                self.unclassified.append((f, loop, f"next({sorted(counts)}) over {norm(loop.iter)}"))
+                continue
+            self.producers.append(Producer(fam, f, "counter", desc, loop, f"itertools.count(): advances iff {guard}", ok))
 
     def _counter_guard(self, loop: ast.For, aug, x: str, cvar: str) -> tuple[str | None, bool, str]:
         """The condition under which the counter advances, as a canonical filter over the loop variable."""
@@ -503,7 +610,7 @@ class SlotAnalysis:
                 return None, ok, "advances on every iteration"
             return "<no single isinstance guard>", False, "the counter does not advance exactly on the elements of one class"
         gnode = ast.parse(guard, mode="eval").body
-        return self.N.canon_filter(gnode, x), ok, f"advances iff {guard}"
+        return self.N.canon_filter(gnode, x, self._cur), ok, f"advances iff {guard}"
 
     # -- (c) template keyword lists --------------------------------------------
     def _template_lists(self, f: Func):
